@@ -117,6 +117,7 @@ type Ctx struct {
 	Distinct     *Distinct
 	stallLimit   int
 	Acc          [64]int64
+	nviolA       atomic.Int64 // lock-free copy of nviol: workloads stop early once a run is clearly violated
 }
 
 func NewCtx(id, tier string, seed int64, root string) *Ctx {
@@ -191,8 +192,8 @@ func (c *Ctx) Parallel(label string, n int, chunk int, f func(w *Worker, i int))
 			}()
 			for {
 				ci := int(next.Add(1)) - 1
-				if ci >= nchunks {
-					return
+				if ci >= nchunks || c.nviolA.Load() > 2000 {
+					return // all chunks done, or the run is already violated thousands of times over
 				}
 				w.R = c.Rand(label, fmt.Sprint(ci))
 				lo, hi := ci*chunk, (ci+1)*chunk
@@ -302,6 +303,7 @@ func (c *Ctx) Violate(v Violation) {
 		return
 	}
 	c.nviol++
+	c.nviolA.Add(1)
 	if len(c.viols) < 50 {
 		c.viols = append(c.viols, v)
 	}
